@@ -1062,8 +1062,12 @@ fn c13_spend_all_scenario(token_coin: u64, policies: u8, healthy: bool, dust: u3
     };
     if healthy { tok(10, 1, 2_000_000, &mut n, &mut utxos); }
     tok(100, policies, token_coin, &mut n, &mut utxos);
-    for _ in 0..dust {
-        utxos.add(&TransactionUnspentOutput::new(&TransactionInput::new(&txid, n), &TransactionOutput::new(&owner, &Value::new(&bn(dust_coin)))));
+    // the dust belongs to three further owners in rotation: every transaction must count one key witness per distinct owner
+    let mut owner_of: Vec<u8> = (0..n).map(|_| 1u8).collect();
+    for i in 0..dust {
+        let ob = 10 + (i % 3) as u8;
+        utxos.add(&TransactionUnspentOutput::new(&TransactionInput::new(&txid, n), &TransactionOutput::new(&BaseAddress::new(0, &kc(ob), &kc(2)).to_address(), &Value::new(&bn(dust_coin)))));
+        owner_of.push(ob);
         n += 1;
     }
     let cfg = TransactionBuilderConfigBuilder::new().fee_algo(&LinearFee::new(&bn(44), &bn(155381))).pool_deposit(&bn(500_000_000)).key_deposit(&bn(2_000_000))
@@ -1082,6 +1086,10 @@ fn c13_spend_all_scenario(token_coin: u64, policies: u8, healthy: bool, dust: u3
             for o in 0..body.outputs().len() {
                 if body.outputs().get(o).address().to_bytes() != target.to_bytes() { return Err(format!("{}: an output pays another address", tag)); }
             }
+            let mut owners: Vec<u8> = (0..body.inputs().len()).map(|i| owner_of[body.inputs().get(i).index() as usize]).collect();
+            owners.sort(); owners.dedup();
+            let counted = batch.get(t).witness_set().vkeys().map(|v| v.len()).unwrap_or(0);
+            if counted != owners.len() { return Err(format!("{}: a transaction spends UTxOs of {} distinct owners but is sized (and its fee computed) for {} key witnesses", tag, owners.len(), counted)); }
         }
     }
     for (i, t) in times.iter().enumerate() {
@@ -1093,14 +1101,14 @@ pub fn c13_spend_all<S: Src>(_s: &mut S) {
     let mut failures = Vec::new();
     let mut n = 0;
     for (token_coin, policies, healthy) in [(1_000_000u64, 1u8, false), (1_000_000, 12, true), (1_200_000, 4, false), (900_000, 2, true)] {
-        for (dust, dust_coin) in [(300u32, 3_000u64), (500, 10_000), (150, 20_000), (40, 100_000)] {
+        for (dust, dust_coin) in [(300u32, 3_000u64), (500, 10_000), (150, 20_000), (40, 100_000), (12, 400_000), (6, 1_000_000)] {
             for max_tx in [3000u32, 4000, 8000] {
                 n += 1;
                 if let Err(e) = c13_spend_all_scenario(token_coin, policies, healthy, dust, dust_coin, max_tx) { failures.push(e); }
             }
         }
     }
-    assert!(failures.is_empty(), "{} of {} send-all scenarios leave supplied UTxOs unspent or spend them twice; first: {}", failures.len(), n, failures[0]);
+    assert!(failures.is_empty(), "{} of {} send-all scenarios leave supplied UTxOs unspent, spend them twice or count the wrong number of signatures; first: {}", failures.len(), n, failures[0]);
 }
 
 pub fn c13_send_all<S: Src>(_s: &mut S) {
